@@ -1,6 +1,7 @@
 package flow
 
 import (
+	"strings"
 	"fmt"
 	"go/token"
 	"go/types"
@@ -220,11 +221,24 @@ func (e *Engine) Paths(fn *ssa.Function, ctx *Ctx, mode Mode) []*Alt {
 			states = e.collect(g, b.Index, []state{{nil, ctx}}, 0)
 		}
 		for _, st := range states {
-			alt := &Alt{Gates: st.gates, Ret: ret, Ctx: st.ctx}
+			alt0 := &Alt{Gates: expandFiniteLoops(st.gates), Ret: ret, Ctx: st.ctx}
 			for _, r := range ret.Results {
-				alt.Results = append(alt.Results, e.Eval(r, st.ctx))
+				alt0.Results = append(alt0.Results, e.Eval(r, st.ctx))
 			}
-			alts = append(alts, alt)
+			unrolled := unrollFiniteExits(alt0)
+			for _, alt := range unrolled {
+				if len(unrolled) > 1 || alt != alt0 {
+					// an unrolled exit whose error result is a definite failure, or
+					// whose gates are contradictory, is not a success alternative
+					if mode == ModeErr && hasErr && len(alt.Results) > 0 && termIsNonNilError(alt.Results[len(alt.Results)-1]) {
+						continue
+					}
+					if hasFalseGate(alt.Gates) {
+						continue
+					}
+				}
+				alts = append(alts, alt)
+			}
 			if len(alts) > maxAlts {
 				e.Undecided = append(e.Undecided, "too many success alternatives in "+shortFn(fn))
 				e.pathMemo[k] = alts
@@ -870,7 +884,199 @@ func (e *Engine) gatesAtUncached(fn *ssa.Function, ctx *Ctx, block int) []*Alt {
 	g := e.GraphOf(fn, ctx)
 	var alts []*Alt
 	for _, st := range e.collect(g, block, []state{{nil, ctx}}, 0) {
-		alts = append(alts, &Alt{Gates: st.gates, Ctx: st.ctx})
+		alts = append(alts, &Alt{Gates: expandFiniteLoops(st.gates), Ctx: st.ctx})
 	}
 	return alts
+}
+
+// expandFiniteLoops unrolls the forall gates of loops that run over a finite
+// literal sequence (a table of checks) and were left through the loop header:
+// "for every row r of {r0..rn-1}: P(r)" becomes P(r0), …, P(rn-1). A loop is
+// recognised by its exit gate len(X) <= iter with X a literal sequence.
+func expandFiniteLoops(gates []*Gate) []*Gate {
+	// loop id -> (iter term string, N)
+	type fin struct {
+		iter *Term
+		n    int
+		exit *Gate
+	}
+	fins := map[string]fin{}
+	for _, g := range gates {
+		if g.Loop != "" || g.Pred == nil {
+			continue
+		}
+		p := StripConv(g.Pred)
+		if p.Op != OpBin || p.Name != "<=" || len(p.Args) != 2 {
+			continue
+		}
+		it := StripConv(p.Args[1])
+		if it.Op != OpIter || len(it.Args) != 2 || !it.Args[0].IsConst("0") || !it.Args[1].IsConst("1") {
+			continue
+		}
+		n, ok := constInt(StripConv(p.Args[0]))
+		if !ok || n < 0 || n > 64 {
+			continue
+		}
+		id := it.Name
+		if i := strings.LastIndex(id, "/"); i >= 0 {
+			id = id[:i]
+		}
+		fins[id] = fin{it, int(n), g}
+	}
+	if len(fins) == 0 {
+		return gates
+	}
+	var out []*Gate
+	for _, g := range gates {
+		if g.Loop == "" {
+			skip := false
+			for _, f := range fins {
+				if f.exit == g {
+					skip = true
+				}
+			}
+			if !skip {
+				out = append(out, g)
+			}
+			continue
+		}
+		f, ok := fins[g.Loop]
+		if !ok || g.Pred == nil {
+			out = append(out, g)
+			continue
+		}
+		its := f.iter.String()
+		for k := 0; k < f.n; k++ {
+			kc := C(fmt.Sprint(k))
+			p := Subst(g.Pred, func(x *Term) *Term {
+				if x.Op == OpIter && x.String() == its {
+					return kc
+				}
+				return nil
+			})
+			if p.IsConst("true") {
+				continue
+			}
+			ng := *g
+			ng.Pred = p
+			ng.Loop = ""
+			ng.Dom = nil
+			out = append(out, &ng)
+		}
+	}
+	return out
+}
+
+func hasFalseGate(gs []*Gate) bool {
+	for _, g := range gs {
+		if g.Pred != nil && g.Loop == "" && g.Pred.IsConst("false") {
+			return true
+		}
+	}
+	return false
+}
+
+// termIsNonNilError: the term of an error result that is certainly not nil.
+func termIsNonNilError(t *Term) bool {
+	t = StripConv(t)
+	switch t.Op {
+	case OpGlobal:
+		n := t.Name
+		if i := strings.LastIndex(n, "."); i >= 0 {
+			n = n[i+1:]
+		}
+		return strings.HasPrefix(n, "Err")
+	case OpCall:
+		return t.Name == "fmt.Errorf" || t.Name == "errors.New" || strings.HasPrefix(t.Name, "fmt.Errorf#") || strings.HasPrefix(t.Name, "errors.New#")
+	case OpNew, OpStruct, OpAddr:
+		return true
+	case OpPhi:
+		for _, a := range t.Args {
+			if !termIsNonNilError(a) {
+				return false
+			}
+		}
+		return len(t.Args) > 0
+	}
+	return false
+}
+
+// unrollFiniteExits splits an alternative that leaves a loop over a finite
+// literal sequence from inside the body (its gates say iter < N for a constant
+// N) into one alternative per exit iteration k: the forall gates of the loop
+// hold for the iterations before k, the plain gates and the results are taken
+// at iteration k.
+func unrollFiniteExits(a *Alt) []*Alt {
+	var it *Term
+	n := 0
+	for _, g := range a.Gates {
+		if g.Loop != "" || g.Pred == nil {
+			continue
+		}
+		p := StripConv(g.Pred)
+		if p.Op != OpBin || p.Name != "<" || len(p.Args) != 2 {
+			continue
+		}
+		x := StripConv(p.Args[0])
+		if x.Op != OpIter || len(x.Args) != 2 || !x.Args[0].IsConst("0") || !x.Args[1].IsConst("1") {
+			continue
+		}
+		k, ok := constInt(StripConv(p.Args[1]))
+		if !ok || k <= 0 || k > 32 {
+			continue
+		}
+		it, n = x, int(k)
+		break
+	}
+	if it == nil {
+		return []*Alt{a}
+	}
+	id := it.Name
+	if i := strings.LastIndex(id, "/"); i >= 0 {
+		id = id[:i]
+	}
+	its := it.String()
+	at := func(t *Term, k int) *Term {
+		kc := C(fmt.Sprint(k))
+		return Subst(t, func(x *Term) *Term {
+			if x.Op == OpIter && x.String() == its {
+				return kc
+			}
+			return nil
+		})
+	}
+	var out []*Alt
+	for k := 0; k < n; k++ {
+		na := &Alt{Ret: a.Ret, Ctx: a.Ctx}
+		for _, g := range a.Gates {
+			if g.Pred == nil {
+				na.Gates = append(na.Gates, g)
+				continue
+			}
+			if g.Loop == id {
+				for j := 0; j < k; j++ {
+					p := at(g.Pred, j)
+					if p.IsConst("true") {
+						continue
+					}
+					ng := *g
+					ng.Pred, ng.Loop, ng.Dom = p, "", nil
+					na.Gates = append(na.Gates, &ng)
+				}
+				continue
+			}
+			p := at(g.Pred, k)
+			if p.IsConst("true") {
+				continue
+			}
+			ng := *g
+			ng.Pred = p
+			na.Gates = append(na.Gates, &ng)
+		}
+		for _, r := range a.Results {
+			na.Results = append(na.Results, at(r, k))
+		}
+		out = append(out, unrollFiniteExits(na)...)
+	}
+	return out
 }
